@@ -1,4 +1,144 @@
-(* C04 -- miter output is 1 exactly when the compared circuits differ.  Statements only; proofs in Proofs/MiterProofs.v. *)
+(* C04 -- miter output is 1 exactly when the compared circuits differ.  Statements only; proofs in Proofs/MiterProofs.v,
+   Proofs/MiterEquiv.v.  `miter Ca Cbo So Eo` is the model of tx.miter(c0, c1, startpoints, endpoints) written through the API
+   model; `second`, `miter_S`, `miter_E` are the defaults the code applies (c1 omitted or empty -> c0; None or an empty
+   collection -> startpoints / endpoints present in both). *)
 From stdpp Require Import strings gmap sets.
-From CG Require Import Model.Miter.
+From CG Require Import Base.Cases Base.Compose Model.Miter Proofs.MiterProofs Proofs.MiterEquiv.
 Open Scope string_scope.
+
+(* structure, for every accepted call (any c1 / startpoints / endpoints, defaults included): both circuits are blackbox-free, the
+   result has no blackboxes, its inputs are exactly the tied startpoints, `sat` is its only output, and its nodes are the tied
+   inputs, the two prefixed copies, `sat`, and one dif_e per compared node. *)
+Theorem C04_miter_struct : ∀ Ca Cbo So Eo M,
+  miter Ca Cbo So Eo = Ok M →
+  let Cb := second Ca Cbo in let S := miter_S Ca Cb So in let E := miter_E Ca Cb Eo in
+  c_bbs Ca = ∅ ∧ c_bbs Cb = ∅ ∧ c_bbs M = ∅ ∧ NoDup S ∧ NoDup E ∧
+  inputs (c_g M) = list_to_set S ∧ outputs (c_g M) = {["sat"]} ∧
+  dom (c_g M) = list_to_set S ∪ set_map (pre "c0") (dom (c_g Ca)) ∪ set_map (pre "c1") (dom (c_g Cb))
+                ∪ {["sat"]} ∪ list_to_set (pre "dif" <$> E).
+Proof. exact miter_struct_gen. Qed.
+Print Assumptions C04_miter_struct.
+
+(* semantics, for every accepted call whose tied startpoints are primary inputs of both circuits: the consistent valuations of the
+   miter are exactly those whose pull-backs along c0_ / c1_ are consistent for the (io-stripped) circuits -- so untied startpoints
+   of each copy are independent free signals --, in which every tied startpoint is shared by both copies, every dif_e is the xor of
+   the two copies of e, and sat is 1 iff some dif_e is 1 (for an empty comparison: sat = 0). *)
+Theorem C04_miter : ∀ Ca Cbo So Eo M,
+  miter Ca Cbo So Eo = Ok M →
+  let Cb := second Ca Cbo in let S := miter_S Ca Cb So in let E := miter_E Ca Cb Eo in
+  list_to_set S ⊆ inputs (c_g Ca) ∩ inputs (c_g Cb) →
+  ∀ v, consistent (c_g M) v ↔
+    consistent (strip_io (c_g Ca)) (v ∘ pre "c0") ∧ consistent (strip_io (c_g Cb)) (v ∘ pre "c1") ∧
+    (∀ s, s ∈ S → v (pre "c0" s) = v s ∧ v (pre "c1" s) = v s) ∧
+    (∀ e, e ∈ E → v (pre "dif" e) = xorb (v (pre "c0" e)) (v (pre "c1" e))) ∧
+    (v "sat" = true ↔ ∃ e, e ∈ E ∧ v (pre "dif" e) = true).
+Proof. exact miter_sem_gen. Qed.
+Print Assumptions C04_miter.
+
+(* the headline: under any consistent valuation, sat is 1 exactly when some compared node differs between the copies *)
+Theorem C04_sat_iff_differ : ∀ Ca Cbo So Eo M,
+  miter Ca Cbo So Eo = Ok M →
+  let Cb := second Ca Cbo in let S := miter_S Ca Cb So in let E := miter_E Ca Cb Eo in
+  list_to_set S ⊆ inputs (c_g Ca) ∩ inputs (c_g Cb) →
+  ∀ v, consistent (c_g M) v → (v "sat" = true ↔ ∃ e, e ∈ E ∧ v (pre "c0" e) ≠ v (pre "c1" e)).
+Proof. exact miter_sat_iff_differ_gen. Qed.
+Print Assumptions C04_sat_iff_differ.
+
+(* the instances named in the property text, in the shape of DESIGN.md appendix C *)
+Theorem C04_miter_explicit : ∀ Ca Cb S E M,
+  c_g Cb ≠ ∅ → S ≠ [] → E ≠ [] →
+  list_to_set S ⊆ inputs (c_g Ca) ∩ inputs (c_g Cb) →
+  miter Ca (Some Cb) (Some S) (Some E) = Ok M →
+  ∀ v, consistent (c_g M) v ↔
+    consistent (strip_io (c_g Ca)) (v ∘ pre "c0") ∧ consistent (strip_io (c_g Cb)) (v ∘ pre "c1") ∧
+    (∀ s, s ∈ S → v (pre "c0" s) = v s ∧ v (pre "c1" s) = v s) ∧
+    (∀ e, e ∈ E → v (pre "dif" e) = xorb (v (pre "c0" e)) (v (pre "c1" e))) ∧
+    (v "sat" = true ↔ ∃ e, e ∈ E ∧ v (pre "dif" e) = true).
+Proof. exact miter_sem. Qed.
+Print Assumptions C04_miter_explicit.
+
+Theorem C04_self_miter : ∀ Ca S E M,
+  S ≠ [] → E ≠ [] → list_to_set S ⊆ inputs (c_g Ca) →
+  miter Ca None (Some S) (Some E) = Ok M →
+  ∀ v, consistent (c_g M) v ↔
+    consistent (strip_io (c_g Ca)) (v ∘ pre "c0") ∧ consistent (strip_io (c_g Ca)) (v ∘ pre "c1") ∧
+    (∀ s, s ∈ S → v (pre "c0" s) = v s ∧ v (pre "c1" s) = v s) ∧
+    (∀ e, e ∈ E → v (pre "dif" e) = xorb (v (pre "c0" e)) (v (pre "c1" e))) ∧
+    (v "sat" = true ↔ ∃ e, e ∈ E ∧ v (pre "dif" e) = true).
+Proof. exact miter_self_sem. Qed.
+Print Assumptions C04_self_miter.
+
+Theorem C04_default_miter : ∀ Ca Cb M,
+  c_g Cb ≠ ∅ →
+  startpoints (c_g Ca) ∩ startpoints (c_g Cb) ⊆ inputs (c_g Ca) ∩ inputs (c_g Cb) →
+  miter Ca (Some Cb) None None = Ok M →
+  let S := startpoints (c_g Ca) ∩ startpoints (c_g Cb) in
+  let E := endpoints (c_g Ca) ∩ endpoints (c_g Cb) in
+  ∀ v, consistent (c_g M) v ↔
+    consistent (strip_io (c_g Ca)) (v ∘ pre "c0") ∧ consistent (strip_io (c_g Cb)) (v ∘ pre "c1") ∧
+    (∀ s, s ∈ S → v (pre "c0" s) = v s ∧ v (pre "c1" s) = v s) ∧
+    (∀ e, e ∈ E → v (pre "dif" e) = xorb (v (pre "c0" e)) (v (pre "c1" e))) ∧
+    (v "sat" = true ↔ ∃ e, e ∈ E ∧ v (pre "dif" e) = true).
+Proof. exact miter_default_sem. Qed.
+Print Assumptions C04_default_miter.
+
+(* nothing to compare: sat is constant 0 (fix aeab334; before it `sat` was an undriven buffer, i.e. a free variable) *)
+Theorem C04_nothing_compared : ∀ Ca Cb S M,
+  c_g Cb ≠ ∅ → S ≠ [] →
+  list_to_set S ⊆ inputs (c_g Ca) ∩ inputs (c_g Cb) →
+  endpoints (c_g Ca) ∩ endpoints (c_g Cb) = ∅ →
+  miter Ca (Some Cb) (Some S) None = Ok M →
+  ∀ v, consistent (c_g M) v → v "sat" = false.
+Proof. exact miter_sem_empty. Qed.
+Print Assumptions C04_nothing_compared.
+
+(* "Consequently": a consistent valuation of the miter with sat = 1 exists iff the two circuits can differ on a compared node
+   while agreeing on the tied startpoints (everything else, in particular the untied startpoints, chosen independently).
+   Side conditions: both circuits closed with undriven inputs (lint-clean), tied startpoints are inputs of both, compared nodes
+   exist in both (the documented precondition; without it the statement is false for colliding names, see docs/C04.md). *)
+Theorem C04_sat_possible_iff_differ : ∀ Ca Cbo So Eo M,
+  let Cb := second Ca Cbo in let S := miter_S Ca Cb So in let E := miter_E Ca Cb Eo in
+  closed (c_g Ca) → closed (c_g Cb) →
+  (∀ n i, c_g Ca !! n = Some i → n_ty i = Input → n_fi i = ∅) →
+  (∀ n i, c_g Cb !! n = Some i → n_ty i = Input → n_fi i = ∅) →
+  list_to_set S ⊆ inputs (c_g Ca) ∩ inputs (c_g Cb) →
+  list_to_set E ⊆ dom (c_g Ca) ∩ dom (c_g Cb) →
+  miter Ca Cbo So Eo = Ok M →
+  (∃ v, consistent (c_g M) v ∧ v "sat" = true) ↔
+  (∃ v0 v1, consistent (c_g Ca) v0 ∧ consistent (c_g Cb) v1 ∧ (∀ s, s ∈ S → v0 s = v1 s) ∧
+            ∃ e, e ∈ E ∧ v0 e ≠ v1 e).
+Proof. exact miter_sat_possible_iff. Qed.
+Print Assumptions C04_sat_possible_iff_differ.
+
+(* ... which is how equivalence is decided: for ANY sound and complete decision procedure `solve c n` ("is there a consistent
+   valuation of c with n = 1", i.e. sat.solve(c, {n: True}) is not False; C01 is the statement that sat.solve is one),
+   solve(miter, sat) is False iff the circuits agree on every compared node for all valuations that agree on the tied startpoints. *)
+Theorem C04_unsat_iff_equivalent : ∀ (solve : circuit → string → bool),
+  (∀ c n, solve c n = true → ∃ v, consistent c v ∧ v n = true) →
+  (∀ c n v, consistent c v → v n = true → solve c n = true) →
+  ∀ Ca Cbo So Eo M,
+  let Cb := second Ca Cbo in let S := miter_S Ca Cb So in let E := miter_E Ca Cb Eo in
+  closed (c_g Ca) → closed (c_g Cb) →
+  (∀ n i, c_g Ca !! n = Some i → n_ty i = Input → n_fi i = ∅) →
+  (∀ n i, c_g Cb !! n = Some i → n_ty i = Input → n_fi i = ∅) →
+  list_to_set S ⊆ inputs (c_g Ca) ∩ inputs (c_g Cb) →
+  list_to_set E ⊆ dom (c_g Ca) ∩ dom (c_g Cb) →
+  miter Ca Cbo So Eo = Ok M →
+  solve (c_g M) "sat" = false ↔
+  ∀ v0 v1, consistent (c_g Ca) v0 → consistent (c_g Cb) v1 → (∀ s, s ∈ S → v0 s = v1 s) →
+           ∀ e, e ∈ E → v0 e = v1 e.
+Proof. exact miter_unsat_iff_equiv. Qed.
+Print Assumptions C04_unsat_iff_equivalent.
+
+(* non-vacuity: a xor and its nand/or realisation, tied on a, compared on o; the call is accepted and the hypotheses hold *)
+Definition exA := mk "a" [("a", Input, false, []); ("b", Input, false, []); ("o", Xor, true, ["a"; "b"])] [].
+Definition exB := mk "b" [("a", Input, false, []); ("b", Input, false, []); ("n", Nand, false, ["a"; "b"]); ("r", Or, false, ["a"; "b"]);
+                          ("o", And, true, ["n"; "r"])] [].
+Example C04_example_accepted :
+  rmap (λ M, (size (c_g M), elements (inputs (c_g M)))) (miter exA (Some exB) (Some ["a"]) (Some ["o"])) = Ok (11, ["a"]).
+Proof. vm_compute. reflexivity. Qed.
+Example C04_example_hyps :
+  c_g exB ≠ ∅ ∧ list_to_set ["a"] ⊆ inputs (c_g exA) ∩ inputs (c_g exB) ∧ list_to_set ["o"] ⊆ dom (c_g exA) ∩ dom (c_g exB) ∧
+  closed (c_g exA) ∧ closed (c_g exB) ∧
+  map_Forall (λ _ i, n_ty i = Input → n_fi i = ∅) (c_g exA) ∧ map_Forall (λ _ i, n_ty i = Input → n_fi i = ∅) (c_g exB).
+Proof. repeat split; try (apply closedb_spec); apply (bool_decide_unpack _); vm_compute; exact I. Qed.
